@@ -1,7 +1,7 @@
 (* Line-oriented entry point of the executable model: run "cmd sexp" = answer line. *)
 From Coq Require Import String Ascii List Bool Arith NArith ZArith.
 From Wrap Require Import Base.Str Base.ListX Syntax.Ast Syntax.Sexp Syntax.Codec Syntax.Print Inst.Model Inst.Proj Pybind.Items Pybind.Gen Pybind.Render Matlab.Ids Matlab.Arity Matlab.Files Xml.Escape Xml.Doc Runtime.Mx Runtime.Gateway.
-From Wrap Require Parse.Peg Parse.Build gen.Grammar.
+From Wrap Require Parse.Peg Parse.Build Parse.Layout Parse.LayoutModule gen.Grammar.
 Import ListNotations.
 Open Scope string_scope.
 
@@ -367,6 +367,20 @@ Definition run_default (x : sexp) : string :=
   | _ => "badshape"
   end.
 
+(* layout "text" -> (skeleton as a string: solid characters, a blank for every filler run) (strict parse answers: T/F) *)
+Definition skel_string (k : list (option Ascii.ascii)) : string :=
+  Peg.string_of (map (fun o => match o with Some c => c | None => " "%char end) k).
+Definition run_layout (x : sexp) : string :=
+  match x with
+  | Atom text =>
+    match Layout.skeleton text with
+    | Some k => "ok " ++ print (SList [Atom (skel_string k);
+                                       e_bool (match LayoutModule.strict_parse Grammar.grammar text with Peg.NoFuel => false | _ => true end)])
+    | None => "err noskeleton"
+    end
+  | _ => "badshape"
+  end.
+
 Definition run (line : string) : string :=
   let '(cmd, rest) := split_cmd line EmptyString in
   match read rest with
@@ -385,6 +399,7 @@ Definition run (line : string) : string :=
     else if String.eqb cmd "mx" then run_mx x
     else if String.eqb cmd "gateway" then run_gateway x
     else if String.eqb cmd "parse" then run_parse x
+    else if String.eqb cmd "layout" then run_layout x
     else if String.eqb cmd "default" then run_default x
     else if String.eqb cmd "echo" then print x
     else "badcmd"
